@@ -33,7 +33,7 @@ for prop in sorted(os.listdir(root)):
                 meta = {"raw": open(mp).read()}
         out = {
             "id": sid,
-            "property_targeted": prop,
+            "property_targeted": prop if prop.startswith("C") and len(prop) == 3 else meta.get("property", prop),
             "summary": meta.get("summary", ""),
             "needs_to_manifest": meta.get("needs_to_manifest", ""),
             "author": "independent sub-agent given only the property text and a scratch worktree",
